@@ -19,7 +19,7 @@ def keyname(i):
     import hashlib
     h = hashlib.sha1(b'jugverif-key-%d' % i).hexdigest()
     tails = ['cc', '0c', 'a1', 'ff', 'c0', '9e', '7b', 'd2']
-    heads = ['ab', 'cd', 'ec', 'f0', '1c', '2b', '3a', '49']
+    heads = ['ac', 'cd', 'ec', 'f0', '1c', '2b', '3a', '49']     # 'ac': a result directory whose name is a substring of a special directory name ('packs')
     return (heads[i % 8] + h[2:38] + tails[i % 8]).encode('ascii')
 
 
